@@ -79,9 +79,10 @@ def _engine(vc, **kw):
             note="saving the misses of one job adds each of them exactly once to the engine's records and to the rows handed to the database; reading the current misses returns them once and clears them")
 def misses(vc):
     for n in range(4):
-        ms = [_NS(tag=i) for i in range(n)]
-        old = [_NS(tag="old")]
-        eng = _engine(vc, _missed_observations=list(old), _saved_missed_observations=list(old))
+        # (another sensor observed target 100 in the same step: that does not make this pair's miss go away)
+        ms = [_NS(tag=i, target_id=100 + i % 2, sensor_id=10 + i) for i in range(n)]
+        old = [_NS(tag="old", target_id=100, sensor_id=9)]
+        eng = _engine(vc, _missed_observations=list(old), _saved_missed_observations=list(old), _observations=[_NS(tag="seen", target_id=100, sensor_id=8)])
         eng.saveMissedObservations(list(ms))
         ok = [m.tag for m in eng._missed_observations] == ["old"] + list(range(n)) and [m.tag for m in eng._saved_missed_observations] == ["old"] + list(range(n))
         cur = eng.getCurrentMissedObservations()
@@ -96,7 +97,8 @@ def misses(vc):
             note="processing the results of several task-execution jobs in any order leaves the same observations, misses (as multisets) and the same sensor pointing changes: every tasked sensor of EVERY job keeps its new boresight and last-tasked time, each record is stored exactly once")
 def taskexec(vc):
     def result(j, sensors):
-        return _NS(target_id=100 + j, observations=[_NS(tag=f"o{j}.{s}") for s in sensors], missed_observations=[_NS(tag=f"m{j}.{s}") for s in sensors],
+        return _NS(target_id=100 + j, observations=[_NS(tag=f"o{j}.{s}", target_id=100 + j, sensor_id=s) for s in sensors],
+                   missed_observations=[_NS(tag=f"m{j}.{s}", target_id=100 + j, sensor_id=s + 50) for s in sensors],
                    sensor_info_list=[{"sensor_id": s, "boresight": f"b{j}.{s}", "time_last_tasked": f"t{j}.{s}"} for s in sensors])
     for jobs in ([(0, [10]), (1, [11])], [(0, [10, 12]), (1, [11])], [(0, [10]), (1, [11]), (2, [12, 13])]):
         views = []
@@ -254,3 +256,13 @@ def step_routing(vc):
     a = object.__new__(C)
     a.updateInfo({"boresight": "B", "time_last_tasked": "T"})
     vc.ensure("O-C08-pointing.applied", sens.boresight == "B" and sens.time_last_tasked == "T")
+
+
+# "after the step every tasked sensor's pointing direction and last-tasked time reflect that tasking": the per-sensor part of that
+# (collectObservations: boresight and time_last_tasked change iff the sensor slews, whatever the outcome of the attempt) is the C02 contract,
+# re-checked in this property's own run
+from pyvc.harness import share as _share, REGISTRY as _REG  # noqa: E402
+from contracts import C02 as _C02  # noqa: E402,F401
+for _h in list(_REG["C02"]):
+    if _h.name.startswith("collect"):
+        _share("C02", _h.name, "C08")
